@@ -168,6 +168,11 @@ def run(env, tier, seed, broken=None):
         '%s a = [0, 0];\n%s b = %s(a, a);\nb[2][0] = 7;\n%s a;\n%s b[2] == a;\n%s c = %s(b, 1);\nc[2][1] = 8;\n%s a;\n%s b;\n' % (VAR, VAR, APPEND, PRINT, PRINT, VAR, REMOVE, PRINT, PRINT),
         '%s put(arr, x) { arr[0] = x; %s arr; }\n%s a = [1, 2];\n%s r = put(a, a);\n%s r == a;\n%s r[0] == a;\n%s %s(r[0][0]);\n' % (FUN, RETURN, VAR, VAR, PRINT, PRINT, PRINT, LEN),
     ]
+    # no built-in changes the array it is given (elements keep their type and value): every built-in that accepts an
+    # array, on arrays holding numeric strings, Bangla-digit strings, nested arrays, then the array is inspected
+    for call in ['%s(a)' % MIN, '%s(a)' % MAX, '%s(a)' % LEN, '%s(a, "9")' % APPEND, '%s(a, 0)' % REMOVE, '%s(a, 1, 2)' % MAX, '%s(a[0], a[1])' % MIN, '%s(a[3])' % ABS, '%s(a[0])' % ROUND]:
+        shared_literal.append('%s a = ["12", "৭", 3, "4.50", "-0", "1e1"];\n%s b = a;\n%s r = %s;\n%s a;\n%s b;\n%s a[0] + a[1];\n%s a[0] == "12";\n%s a[3] == "4.50";\n%s a[4] + "";\n%s %s(a);\n' % (
+            VAR, VAR, VAR, call, PRINT, PRINT, PRINT, PRINT, PRINT, PRINT, PRINT, LEN))
     for i, sl in enumerate(shared_literal):
         cases.append({'id': 'sl%d' % i, 'src': sl})
     mism, ri, rm = diff_runs(env, cases)
